@@ -226,13 +226,53 @@ def check_sat(assumptions, timeout_ms=2000):
     return str(r), s
 
 
+_heavy_cache = {}
+HEAVY_FUNCS = ('utf8', 'utf8dec', 'valid_utf8', 'encodable', 'strlen', 'ascii_ignore')
+
+
+def is_heavy(a):
+    """does the assumption mention the abstract string theory (hard for z3's sequence solver when it has to
+    build long witnesses)?  Such assumptions are left out of *feasibility* queries only, which makes those
+    queries over-approximate (more paths kept) and therefore stays sound; obligations always use the full pc."""
+    k = a.get_id()
+    if k in _heavy_cache:
+        return _heavy_cache[k]
+    heavy = False
+    stack = [a]
+    seen = set()
+    while stack:
+        t = stack.pop()
+        if t.get_id() in seen:
+            continue
+        seen.add(t.get_id())
+        if z3.is_app(t):
+            if t.decl().name() in HEAVY_FUNCS:
+                heavy = True
+                break
+            stack.extend(t.children())
+        elif z3.is_quantifier(t):
+            stack.append(t.body())
+    _heavy_cache[k] = heavy
+    return heavy
+
+
+def light_pc(p):
+    return [a for a in p.pc if not is_heavy(a)]
+
+
 def feasible(p, extra=None, timeout_ms=400):
-    asm = list(p.pc)
+    asm = light_pc(p)
     if extra is not None:
         if z3.is_false(extra):
             return False
         asm.append(extra)
     r, _ = check_sat(asm, timeout_ms)
+    return r != 'unsat'
+
+
+def feasible_full(p, extra, timeout_ms=500):
+    """second opinion with the complete path condition (only worth it where pruning saves whole paths)"""
+    r, _ = check_sat(list(p.pc) + [extra], timeout_ms)
     return r != 'unsat'
 
 
